@@ -8,7 +8,7 @@ python3 - <<'PY'
 import sys
 sys.path.insert(0, '.')
 from jrsa import extract
-for cfg in ('libs-all', 'corpus', 'pmcore'):
+for cfg in ('libs-all', 'corpus', 'pmcore', 'fixtures'):
     d, th = extract.ensure_facts(cfg, verbose=True)
     print("facts ready:", cfg, d)
 PY
